@@ -1757,30 +1757,19 @@ def _update_(
 def _update_at_(
     self,
     input_dict_or_td: dict[str, CompatibleType] | T,
-    index: IndexType,
+    idx: IndexType,
     clone: bool = False,
     *,
     keys_to_update: Sequence[NestedKey] | None = None,
     non_blocking: bool = False,
 ):
-    if isinstance(input_dict_or_td, dict):
-        input_dict_or_td = self.from_dict(input_dict_or_td, batch_size=self.batch_size)
-
     if is_tensorclass(input_dict_or_td):
-        non_tensordict = {
-            k: v for k, v in input_dict_or_td._non_tensordict.items() if v is not None
-        }
-        self._tensordict.update(input_dict_or_td._tensordict)
-        self._non_tensordict.update(non_tensordict)
-        return self
-
-    self._tensordict.update_at_(
-        input_dict_or_td,
-        index=index,
-        clone=clone,
-        keys_to_update=keys_to_update,
-        non_blocking=non_blocking,
-    )
+        input_dict_or_td = input_dict_or_td._tensordict
+    # idx is passed by position (the containers do not agree on its name); optional arguments only when given
+    kwargs = {"non_blocking": non_blocking}
+    if keys_to_update is not None:
+        kwargs["keys_to_update"] = keys_to_update
+    self._tensordict.update_at_(input_dict_or_td, idx, clone, **kwargs)
     return self
 
 
